@@ -293,4 +293,138 @@ theorem advO_resBodyChunkedData (cfg : Cfg) (c : Conn) (hrl : c.out.read ≤ c.o
         exact ⟨kl, by show c.out.read < c1.out.read + n; rw [kr]; omega⟩
       · exact okP_rc (by decide)
 
+/-- RES_BODY_IDENTITY_CL_KNOWN on an open stream answering HTP_OK: the rest of the body was consumed (at least one byte), to RES_FINALIZE -/
+theorem advO_resBodyIdentityClKnown (cfg : Cfg) (c : Conn) (hrl : c.out.read ≤ c.out.len) (ho : 0 < c.out.bodyDataLeft)
+    (hnc : (c.out.status == STREAM_CLOSED) = false) :
+    OkP (fun c' => Adv c.out c'.out ∧ c'.outState = .finalize) (resBodyIdentityClKnown cfg c) := by
+  unfold resBodyIdentityClKnown
+  extract_lets avail n
+  have hn0 : 0 ≤ n := by
+    simp only [n, avail]
+    split <;> omega
+  clear_value n
+  simp only [hnc, Bool.false_eq_true, if_false]
+  split
+  · exact okP_rc (by decide)
+  · rename_i hnz
+    have hnz' : n ≠ 0 := by simpa using hnz
+    have kk := fun data g => (keepO_resProcessBodyDataGap cfg data g c).1
+    generalize hP : resBodyIdentityClKnown.resProcessBodyDataGap cfg _ _ c = P
+    have k : SameCur c.out P.1.out := by rw [← hP]; exact kk _ _
+    clear kk hP
+    obtain ⟨c1, rc1⟩ := P
+    simp only at k ⊢
+    split
+    · rename_i hne
+      intro e
+      simp only at e
+      rw [e] at hne
+      exact absurd hne (by decide)
+    · obtain ⟨kr, kl, _, _, _⟩ := k
+      split
+      · intro _
+        have k2 := (keepO_resProcessBodyData cfg none { c1 with out := { c1.out.advance n with bodyDataLeft := c1.out.bodyDataLeft - n }, outState := .finalize }).1
+        have ks := keepOS_resProcessBodyData cfg none { c1 with out := { c1.out.advance n with bodyDataLeft := c1.out.bodyDataLeft - n }, outState := .finalize }
+        refine ⟨⟨?_, ?_⟩, ks⟩
+        · rw [k2.2.1]; exact kl
+        · rw [k2.1]; show c.out.read < c1.out.read + n; rw [kr]; omega
+      · exact okP_rc (by decide)
+
+/-! ### RES_BODY_DETERMINE -/
+
+/-- the states RES_BODY_DETERMINE can hand over to -/
+def AfterDetermine (s : ResState) : Prop :=
+  s = .finalize ∨ s = .line ∨ s = .bodyIdentityClKnown ∨ s = .bodyIdentityStreamClose ∨ s = .bodyChunkedLength
+
+theorem ok_resCl (cl ct : Option Parse.Header) (uid : Nat) (c : Conn) : OkP (fun c' => AfterDetermine c'.outState) (resCl cl ct uid c) := by
+  unfold resCl
+  cases cl with
+  | some cl' =>
+    simp only
+    split
+    · exact okP_rc (by decide)
+    · split
+      · exact okP_mk (Or.inr (Or.inr (Or.inl rfl)))
+      · exact okP_mk (Or.inl rfl)
+  | none =>
+    cases ct with
+    | none =>
+      simp only [Bool.false_eq_true, if_false]
+      exact okP_mk (Or.inr (Or.inr (Or.inr (Or.inl rfl))))
+    | some ct' =>
+      simp only
+      split
+      · exact okP_rc (by decide)
+      · exact okP_mk (Or.inr (Or.inr (Or.inr (Or.inl rfl))))
+
+theorem ok_resFraming (te cl ct : Option Parse.Header) (uid : Nat) (c : Conn) :
+    OkP (fun c' => AfterDetermine c'.outState) (resFraming te cl ct uid c) := by
+  unfold resFraming
+  repeat' split
+  all_goals first
+    | exact okP_mk (Or.inr (Or.inr (Or.inr (Or.inr rfl))))
+    | exact ok_resCl _ _ _ _
+
+theorem ok_resFramingStep (uid : Nat) (t : Tx) (te cl : Option Parse.Header) (c : Conn) :
+    OkP (fun c' => AfterDetermine c'.outState) (resFramingStep uid t te cl c) := by
+  unfold resFramingStep
+  split
+  · simp only []
+    exact ok_resFraming _ _ _ _ _
+  · rename_i h
+    exact okP_mk (Or.inl (by simpa using h))
+
+/-- **RES_BODY_DETERMINE answering HTP_OK**: cursors and line buffer untouched, and the parser left RES_BODY_DETERMINE - to RES_FINALIZE,
+    a body state, or (after an interim 100) back to RES_LINE -/
+theorem fwdO_resBodyDetermine (cfg : Cfg) (c : Conn) :
+    OkP (fun c' => KeepO c c' ∧ AfterDetermine c'.outState) (resBodyDetermine cfg c) := by
+  intro hok
+  refine ⟨keepO_resBodyDetermine cfg c, ?_⟩
+  revert hok
+  show OkP (fun c' => AfterDetermine c'.outState) (resBodyDetermine cfg c)
+  unfold resBodyDetermine
+  cases c.out.tx with
+  | none => exact okP_rc (by decide)
+  | some uid =>
+    simp only
+    split
+    · intro _
+      rw [keepOS_txStateResponseHeaders cfg uid { c with outState := .finalize }]
+      exact Or.inl rfl
+    · unfold resBodyDetermineRest
+      extract_lets c1 cl te is100
+      clear_value c1 is100
+      split
+      · intro _
+        rw [keepOS_txStateResponseHeaders cfg uid (resSwitchTunnel c1)]
+        left
+        unfold resSwitchTunnel
+        simp only []
+        split <;> rfl
+      · split
+        · exact okP_mk (Or.inr (Or.inl rfl))
+        · apply okP_andThen
+          intro h1
+          intro _
+          rw [keepOS_txStateResponseHeaders cfg uid _]
+          exact ok_resFramingStep uid _ te cl _ h1
+
+/-! ### a helper for RES_LINE / RES_HEADERS / RES_FINALIZE (their progress lemmas are not done) -/
+
+/-- consolidating (either flavour) leaves length and read cursor alone -/
+theorem consolidate_rl (d d2 : Dir) (hard : Nat) (s : Bool) (data : Bytes) (h : d.consolidate hard s = some (d2, data)) : RL d d2 := by
+  unfold Dir.consolidate at h
+  cases hb : d.buf with
+  | none => rw [hb] at h; simp only [Option.some.injEq, Prod.mk.injEq] at h; rw [← h.1]; exact RL.refl _
+  | some bb =>
+    rw [hb] at h
+    simp only at h
+    cases hbu : d.buffer hard s with
+    | none => rw [hbu] at h; simp at h
+    | some d' =>
+      rw [hbu] at h
+      simp only [Option.some.injEq, Prod.mk.injEq] at h
+      rw [← h.1]
+      exact ⟨(buffer_read_len _ _ _ _ hbu).2, (buffer_read_len _ _ _ _ hbu).1⟩
+
 end Htp.Conn
